@@ -235,7 +235,7 @@ func c07ShiftCellPos(e c07Edit, onEdited bool, col, row int) (int, int, bool) {
 	return col, row, ok
 }
 
-func c07SpecialPlace(r *Run, f *xl.File, rng *Rng, sheets []string, edited string) *c07Special {
+func c07SpecialPlace(r *Run, f *xl.File, rng *Rng, sheets []string, edited string, idx int, twins []*c07Node) *c07Special {
 	sp := &c07Special{}
 	pfxOK := !c07NeedsQuote(edited) // library-produced texts carry unquoted prefixes
 	holders := []string{edited}
@@ -334,53 +334,79 @@ func c07SpecialPlace(r *Run, f *xl.File, rng *Rng, sheets []string, edited strin
 				}
 			}
 		}
-		// ---- data validations
-		if len(sp.dvs) < 4 {
-			dref := func(shape int) *c07Node {
-				rf := &c07Ref{shape: shape, c1: rng.Range(1, 6), r1: rng.Range(1, 9)}
-				rf.c2, rf.r2 = rf.c1+rng.Intn(2), rf.r1+rng.Range(1, 3)
-				flags(rf)
-				if s != edited || rng.Chance(40) {
-					rf.sheet = edited
-					rf.forceQuote = rng.Chance(20)
-				}
-				if s != edited && rng.Chance(15) {
-					rf.sheet = ""
-				}
-				return &c07Node{kind: "ref", ref: rf}
+	}
+	// ---- data validations: on the edited sheet and two other sheets (generator trees, so quoted
+	// prefixes are fine). Per sheet: a list source; a two-formula rule (formula1 XML-escaped half of the
+	// time); a two-formula rule holding the workbook's twin formula texts. The operator of the
+	// two-formula rules cycles through every value including the ABSENT attribute (Excel omits
+	// operator="between"), on the edited sheet and on other sheets.
+	ops := []string{"", "between", "notBetween", "equal", "notEqual", "greaterThan", "lessThan", "greaterThanOrEqual", "lessThanOrEqual"}
+	dvHolders := []string{edited}
+	for _, s := range sheets {
+		if s != edited && len(dvHolders) < 3 {
+			dvHolders = append(dvHolders, s)
+		}
+	}
+	for hi, s := range dvHolders {
+		dref := func(shape int) *c07Node {
+			rf := &c07Ref{shape: shape, c1: rng.Range(1, 6), r1: rng.Range(1, 9)}
+			rf.c2, rf.r2 = rf.c1+rng.Intn(2), rf.r1+rng.Range(1, 3)
+			flags(rf)
+			if s != edited || rng.Chance(40) {
+				rf.sheet = edited
+				rf.forceQuote = rng.Chance(20)
 			}
-			before, _ := f.GetDataValidations(s)
-			base := len(before)
-			// list source
-			d1 := &c07DV{sheet: s, idx: base, sqref: [4]int{19, 40, 19, 42}}
-			d1.trees[0] = dref(1)
-			dv := xl.NewDataValidation(true)
-			dv.Sqref = c07RangeName(d1.sqref)
-			dv.SetSqrefDropList(d1.trees[0].String())
-			// formula1 / formula2, formula1 possibly XML-escaped as in a file read from disk
-			d2 := &c07DV{sheet: s, idx: base + 1, sqref: [4]int{21, 40, 22, 41}}
-			d2.trees[0] = &c07Node{kind: "bin", s: rng.Pick([]string{">", "<", "&", "+"}), kids: []*c07Node{dref(0), dref(0)}}
-			d2.trees[1] = &c07Node{kind: "fn", s: "MAX", kids: []*c07Node{dref(1)}}
-			f1 := d2.trees[0].String()
-			if rng.Chance(50) {
-				f1 = strings.NewReplacer("&", "&amp;", "<", "&lt;", ">", "&gt;").Replace(f1)
+			if s != edited && rng.Chance(15) {
+				rf.sheet = ""
 			}
-			dv2 := xl.NewDataValidation(true)
-			dv2.Sqref = c07RangeName(d2.sqref)
-			if err := dv2.SetRange(f1, d2.trees[1].String(), xl.DataValidationTypeWhole, xl.DataValidationOperatorBetween); err == nil &&
-				f.AddDataValidation(s, dv) == nil && f.AddDataValidation(s, dv2) == nil {
-				got, _ := f.GetDataValidations(s)
-				if len(got) == base+2 {
-					d1.before = [2]string{got[base].Formula1, got[base].Formula2}
-					d2.before = [2]string{got[base+1].Formula1, got[base+1].Formula2}
-					d1.count, d2.count = len(got), len(got)
-					sp.dvs = append(sp.dvs, d1, d2)
-				} else {
-					r.Stat("special:dv-count-mismatch")
-				}
-			} else {
+			return &c07Node{kind: "ref", ref: rf}
+		}
+		before, _ := f.GetDataValidations(s)
+		base := len(before)
+		var mine []*c07DV
+		add := func(d *c07DV, dv *xl.DataValidation) {
+			dv.Sqref = c07RangeName(d.sqref)
+			if err := f.AddDataValidation(s, dv); err != nil {
 				r.Stat("special:dv-set-error")
+				return
 			}
+			d.idx = base + len(mine)
+			mine = append(mine, d)
+		}
+		// list source
+		d1 := &c07DV{sheet: s, sqref: [4]int{19, 40, 19, 42}}
+		d1.trees[0] = dref(1)
+		dv1 := xl.NewDataValidation(true)
+		dv1.SetSqrefDropList(d1.trees[0].String())
+		add(d1, dv1)
+		// formula1 / formula2 with an explicit, another or an absent operator
+		d2 := &c07DV{sheet: s, sqref: [4]int{21, 40, 22, 41}}
+		d2.trees[0] = &c07Node{kind: "bin", s: rng.Pick([]string{">", "<", "&", "+"}), kids: []*c07Node{dref(0), dref(0)}}
+		d2.trees[1] = &c07Node{kind: "fn", s: "MAX", kids: []*c07Node{dref(1)}}
+		f1 := d2.trees[0].String()
+		if rng.Chance(50) {
+			f1 = strings.NewReplacer("&", "&amp;", "<", "&lt;", ">", "&gt;").Replace(f1)
+		}
+		op2 := ops[(idx*2+hi)%len(ops)]
+		add(d2, &xl.DataValidation{AllowBlank: true, Type: "whole", Operator: op2, Formula1: f1, Formula2: d2.trees[1].String()})
+		r.Stat("special:dv-operator:" + map[bool]string{true: "edited", false: "other"}[s == edited] + ":" + map[bool]string{true: "absent", false: op2}[op2 == ""])
+		// the twin formula texts of this workbook (identical text on several sheets)
+		if len(twins) == 2 {
+			d3 := &c07DV{sheet: s, sqref: [4]int{24, 40, 24, 41}}
+			d3.trees[0], d3.trees[1] = twins[0], twins[1]
+			op3 := ops[(idx*2+hi+4)%len(ops)]
+			add(d3, &xl.DataValidation{AllowBlank: true, Type: "decimal", Operator: op3, Formula1: twins[0].String(), Formula2: twins[1].String()})
+			r.Stat("special:dv-operator:" + map[bool]string{true: "edited", false: "other"}[s == edited] + ":" + map[bool]string{true: "absent", false: op3}[op3 == ""])
+		}
+		got, _ := f.GetDataValidations(s)
+		if len(got) != base+len(mine) {
+			r.Stat("special:dv-count-mismatch")
+			continue
+		}
+		for _, d := range mine {
+			d.before = [2]string{got[d.idx].Formula1, got[d.idx].Formula2}
+			d.count = len(got)
+			sp.dvs = append(sp.dvs, d)
 		}
 	}
 	for _, o := range sp.obs {
